@@ -684,8 +684,8 @@ def c16_check(variant, recs, t, wd, final_newline=True):
         return ("crash", "%s: exit %d, stderr %r" % (cmdline, rc, err[-400:]))
     if name.startswith("oligo"):
         rows = lines_of(read(out))
-        if oheader and rows:
-            if rows[0].split(odelim) != [n.encode() for n in pm.header_names(kk)]:
+        if oheader:
+            if not rows or rows[0].split(odelim) != [n.encode() for n in pm.header_names(kk)]:
                 return ("header-line", "%s: first line is not the header in the requested delimiter" % cmdline)
             rows = rows[1:]
         if rows is None or len(rows) != len(recs):
